@@ -25,6 +25,7 @@ Proof.
   - unfold remove_node. destruct (get_node h n); [|intros [= <-]; reflexivity].
     destruct (existsb _ _); [intros [= <-]; reflexivity|discriminate].
   - unfold clone. destruct (clone_nodes _ _ _ _ _ _ _) as [[[a b] c]|]; [discriminate|intros [= <-]; reflexivity].
+  - discriminate.
   - unfold roundtrip. destruct (rt_domain h); simpl; [|intros [= <-]; reflexivity].
     destruct (ser_model h); [discriminate|]. intros [= <-]. reflexivity.
 Qed.
@@ -332,3 +333,38 @@ Example uns_clone :
   /\ sharding_of (snd (nth 1 (s_nodes (fst (clone h2 true true))) (0, mkN [] [] []))) uns_d <> []
   /\ check (fst (clone h2 true true)) = [].
 Proof. vm_compute. repeat split; discriminate. Qed.
+
+(* ------------------------------------------------------------------ shape edits after sharding *)
+(* x (rank 2) is sharded on node 0 along axes -1 and 0.  Editing its shape to rank 3 keeps everything valid; rank 1
+   makes the two recorded axes coincide, rank 0 puts both out of range: the library does not revisit the recorded
+   axes, its check reports 8 / 7, and nothing else is affected (DevInvW). *)
+Example shape_edit_example :
+  let h := run ex_h0 (firstn 3 ex_ops) in
+  check (set_rank h ex_x (Some 3)) = [] /\ check (set_rank h ex_x None) = []
+  /\ check (set_rank h ex_x (Some 1)) = [(8, 0, 0)] /\ check (set_rank h ex_x (Some 0)) = [(7, 0, -1); (7, 0, 0)].
+Proof. vm_compute. repeat split. Qed.
+
+(* forgetting the shape (rank unknown) never invalidates a recorded axis: the hypothesis of the strict shape-edit
+   theorem is satisfiable on every DevInv state *)
+Lemma setrank_ok_unknown h v : DevInv h -> setrank_ok h v None.
+Proof.
+  intros [_ Hn] p dc sp Hp Hdc Hsp _. unfold Gen.nodes_ok in Hn. rewrite Forall_forall in Hn.
+  specialize (Hn p Hp). unfold Gen.node_ok in Hn. rewrite Forall_forall in Hn. destruct (Hn dc Hdc) as [_ B].
+  rewrite Forall_forall in B. destruct (B sp Hsp) as [_ [S2 _]]. eapply dims_ok_weaken. exact S2.
+Qed.
+
+Lemma shape_edit_unspecified :
+  exists h v r, DevInv h /\ ~ DevInv (set_rank h v r) /\ DevInvW (set_rank h v r)
+                /\ check (set_rank h v r) = [(8, 0, 0)].
+Proof.
+  set (h := run ex_h0 (firstn 3 ex_ops)).
+  assert (Hinv : DevInv h).
+  { apply inv_reachable; [exact ex_h0_inv|]. simpl. repeat split; auto; try (left; reflexivity);
+      unfold devs_ok; repeat constructor; simpl; lia. }
+  exists h, ex_x, (Some 1). split; [exact Hinv|]. split; [|split].
+  - intros [_ Hn]. vm_compute in Hn. inversion Hn as [|? ? Hnd _]; subst. inversion Hnd as [|? ? [_ Hs] _]; subst.
+    inversion Hs as [|? ? [_ [[_ N] _]] _]; subst. vm_compute in N. inversion N as [|? ? Hnot _]; subst.
+    apply Hnot. left. reflexivity.
+  - apply (exec_invW h (OSetRank ex_x (Some 1))); [apply DevInv_weaken; exact Hinv | exact I].
+  - vm_compute. reflexivity.
+Qed.
